@@ -520,6 +520,7 @@ func specHMACInit(a ipmi.AuthenticationAlgorithm, key []byte) int {
 //@ at mapupdate assert [C14.record-bytes] len(getSDRCmd.Rsp.Payload) >= 43 && arg[*ipmi.FullSensorRecord](2).Number == getSDRCmd.Rsp.Payload[2] && arg[*ipmi.FullSensorRecord](2).OwnerLUN == ipmi.LUN(getSDRCmd.Rsp.Payload[1]%4) &&
 //@    arg[*ipmi.FullSensorRecord](2).Linearisation == ipmi.Linearisation(getSDRCmd.Rsp.Payload[18]%128) && arg[*ipmi.FullSensorRecord](2).AnalogDataFormat == ipmi.AnalogDataFormat(getSDRCmd.Rsp.Payload[15]/64)
 //@ ensures [C14.no-partial] result1 != nil ==> isnil(result0)
+//@ ensures [C14.fresh-result] result1 == nil ==> isnewmap(result0) // a retried walk starts from an empty map: nothing of an abandoned walk survives
 
 // The closure retried by RetrieveSDRRepository: a walk is only accepted if neither timestamp of
 // the repository moved forward between the two Get SDR Repository Info commands around it.
